@@ -361,11 +361,15 @@ class Ctx(object):
             self.evaluations += 1
             self.transitions += p['checks']
             self.traces += 1
-            key = state_of(cases[i]) if state_of else ohash(tag, jsonable(cases[i]))
-            self.state_keys.add(key)
+            if state_of == 'bfs':
+                key = ohash(tag, p['key']) if p['key'] is not None else None
+            else:
+                key = state_of(cases[i]) if state_of else ohash(tag, jsonable(cases[i]))
+            if key is not None:
+                self.state_keys.add(key)
             if p['outcome'] is not None:
                 self.outcomes.add(p['outcome'])
-            if p['nontrivial']:
+            if p['nontrivial'] and key is not None:
                 self.nontrivial.add(key)
             for k, v in p['counters'].items():
                 self.counters[tag + '.' + k if phase else k] = \
@@ -398,8 +402,7 @@ class Ctx(object):
         seen = {}
         frontier = []
         res = self.run_cases(fn_name, [{'hist': list(h)} for h in roots], phase=phase,
-                             state_of=lambda c: None)
-        self.state_keys.discard(None)
+                             state_of='bfs')
         for h, p in zip(roots, res):
             if p['key'] not in seen:
                 seen[p['key']] = list(h)
@@ -415,8 +418,7 @@ class Ctx(object):
                 completed = level
                 break
             res = self.run_cases(fn_name, [{'hist': h} for h in cand], phase=phase,
-                                 state_of=lambda c: None)
-            self.state_keys.discard(None)
+                                 state_of='bfs')
             ntrans += len(cand)
             frontier = []
             for h, p in zip(cand, res):
@@ -431,8 +433,6 @@ class Ctx(object):
                 self.caps.append('bfs %s: state cap %d hit at depth %d' % (phase or fn_name, max_states, level))
                 self.exhaustive = False
                 break
-        for k in seen:
-            self.state_keys.add(ohash(phase or fn_name, k))
         self.bounds[(phase or fn_name) + '.depth'] = completed
         self.counters[(phase or fn_name) + '.bfs_states'] = len(seen)
         self.counters[(phase or fn_name) + '.bfs_transitions'] = ntrans
